@@ -100,7 +100,20 @@ def run(ctx):
         impl3, fails3 = impl_dec(drv, k, fl, 3, lambda i: i * 13 + 5, blobs)
         impl1, fails1 = impl_dec(drv, k, fl, 1, 0, blobs)     # one input byte per call: a call ends exactly at every member / Stream / header boundary
         impl7, fails7 = impl_dec(drv, k, fl, 7, 0, blobs)     # everything offered with LZMA_RUN, LZMA_FINISH only when nothing is left
-        for f in fails + fails3 + fails1 + fails7:
+        # the same inputs on a decoder that decoded another file before and was re-initialised without lzma_end (nothing of the
+        # earlier file - sizes, flags, positions - may survive): status, input position and content must be those of a fresh decoder
+        import lzma as _lz
+        pri_d = xzgen.gen_data(rng, 1003)
+        pri_alone = _lz.compress(pri_d, format=_lz.FORMAT_ALONE, filters=[{'id': _lz.FILTER_LZMA1, 'dict_size': 4096}])
+        pri_alone = pri_alone[:5] + len(pri_d).to_bytes(8, 'little') + pri_alone[13:]      # known size, end marker still present
+        prior = {0: _lz.compress(pri_d, preset=0), 2: pri_alone, 3: pri_alone, 4: lz_member(rng, pri_d)}.get(k)
+        implh, failsh = impl_dec(drv, k, fl, 16, lambda i: i * 5 + 3, blobs, prior=prior) if prior else ([None] * len(blobs), [])
+        for i_, a_, h_ in zip(idxs, impl, implh):
+            if a_ is None or h_ is None: continue
+            n_eval += 1
+            if (a_[0], a_[1], a_[4]) != (h_[0], h_[1], h_[4]):
+                viol.append(dict(coder=k, flags=fl, label=cases[i_][1], why='a decoder re-initialised after decoding another file answers %d (%d bytes in, %d out) where a fresh decoder answers %d (%d in, %d out)' % (h_[0], h_[1], len(h_[4]), a_[0], a_[1], len(a_[4])), file=cases[i_][0].hex(), spec=[], impl=list(a_[:4]), sliced=list(h_[:4])))
+        for f in fails + fails3 + fails1 + fails7 + failsh:
             ctx.violation('decoder crashed', {'line': (f[0] or '')[:20000], 'stderr': f[1], 'kind': 'sanitizer'})
         for i, s, a, a3, a1, a7 in zip(idxs, spec, impl, impl3, impl1, impl7):
             if a is None or a3 is None or a1 is None or a7 is None: continue
